@@ -37,9 +37,14 @@ def jobs(tier, seed):
     for mode in C.MODES:
         js.append(Job(f"C10/backtracking-loop/{mode}", "contracts.C10:job_backtracking_loop",
                       dict(n=2, mode=mode, seed=seed, timeout_s=30.0 if tier == "quick" else 90.0), timeout_s=600.0))
+    # bounded stand-in (native floats): the projected linear estimates themselves
+    parts = 3 if tier == "quick" else 12
+    for part in range(parts):
+        js.append(Job(f"C10/estimator-outcomes (instances)/{part}", "contracts.C11:native_estimators",
+                      dict(prop="C10", tier=tier, seed=seed, part=part, parts=parts), timeout_s=1800.0))
     return js
 
 CLAIM = {'engine': 'E2-symtwin + E1-pyvc', 'level': 'other',
  'text': 'PARTIAL. With the constraint projections as uninterpreted functions the wiring that makes the constrained estimators physical is proved on the unmodified code: set_constraint_from_standard_qt_and_option installs, for all three projected-gradient algorithms, all tomography types and both parametrisations, exactly the physical / equality-only / inequality-only / identity projection the two constraint flags name (the physical one being Dykstra\'s scheme of C05); the projected linear estimate is precisely to_var(calc_proj_physical(linear estimate)) in the estimator\'s projection order, with and without timing, one estimate per dataset, inputs unchanged; without var_start the backtracking algorithm starts at the origin object (maximally mixed state / uniform POVM / trace-preserving gate).',
- 'note': 'NOT decided: that the returned estimate is physical to the accuracy of the stopping thresholds and recovers exact data (convergence of Dykstra and of projected gradient: theorems, not contracts over one call), termination. Feasibility of every backtracking iterate given the projection contract (C11\'s loop-invariant contract) and the Dykstra recurrence of calc_proj_physical (C05\'s contract) are re-checked under C10 as the callee contracts it rests on. Observation (not a violation of the property as stated): the algorithm option mode_proj_order is accepted and ignored by func_calc_proj_physical_with_var; the template object\'s order is used.',
+ 'note': 'NOT decided by proof: that the returned estimate is physical to the accuracy of the stopping thresholds and recovers exact data (convergence of Dykstra and of projected gradient: theorems, not contracts over one call), termination. Bounded stand-in (never counted as proved): on seeded one-qubit tomography instances the real projected linear estimator must return a physical estimate and the true object from exact data (the loss-minimisation estimator likewise, reported under C11). Feasibility of every backtracking iterate given the projection contract (C11\'s loop-invariant contract) and the Dykstra recurrence of calc_proj_physical (C05\'s contract) are re-checked under C10 as the callee contracts it rests on. Observation (not a violation of the property as stated): the algorithm option mode_proj_order is accepted and ignored by func_calc_proj_physical_with_var; the template object\'s order is used.',
  'technique': 'contract-based deductive verification with uninterpreted callee contracts (symbolic execution of the real code, z3)'}
